@@ -1,10 +1,14 @@
 package main
 
 import (
+	"encoding/json"
 	"fmt"
+	"os"
+	"path/filepath"
 	"regexp"
 	"sort"
 	"strings"
+	"time"
 )
 
 func init() {
@@ -269,8 +273,68 @@ func typeOfCase(res *e1Result, id string) string {
 	return id
 }
 
+// replay re-creates the recorded scenario against the current tree. For E1
+// violations the recorded single-case package is rebuilt and its harness run
+// without any enumeration; for the other engines the property's enumeration is
+// re-run with every other violation masked. Exit 1 = reproduced, 0 = not.
 func replay(path string) {
-	fmt.Println("replay not implemented yet for", path)
+	b, err := os.ReadFile(path)
+	if err != nil {
+		fatalInfra("replay: %v", err)
+	}
+	var rec map[string]interface{}
+	if err := json.Unmarshal(b, &rec); err != nil {
+		fatalInfra("replay: %v", err)
+	}
+	prop, key := str(rec, "property"), str(rec, "key")
+	fmt.Printf("replaying %s violation %q\n  recorded: %s\n", prop, key, oneLine(str(rec, "what")))
+	files, _ := rec["files"].(map[string]interface{})
+	hargs, _ := rec["harness_args"].([]interface{})
+	if str(rec, "engine") == "e1" && len(files) > 0 && len(hargs) > 0 {
+		dir := filepath.Join(scratchDir, "replay")
+		for n, c := range files {
+			if cs, ok := c.(string); ok && n != "p/derived.gen.go" {
+				writeFile(filepath.Join(dir, n), cs)
+			}
+		}
+		g := run(dir, 3*time.Minute, nil, buildGoderive(), "./p")
+		fmt.Printf("  goderive exit %d %s\n", g.Exit, head(firstErrorLine(g.Stderr), 200))
+		c := run(dir, 10*time.Minute, nil, "go", "build", "-o", "h.bin", ".")
+		if g.Exit != 0 || c.Exit != 0 {
+			fmt.Printf("  package does not generate/compile now: %s\n", head(firstErrorLine(c.Stderr), 300))
+			cleanup()
+			if strings.HasPrefix(key, "does-not-") {
+				fmt.Println("REPRODUCED")
+				os.Exit(1)
+			}
+			os.Exit(0)
+		}
+		var args []string
+		for _, a := range hargs {
+			args = append(args, fmt.Sprint(a))
+		}
+		h := run(dir, 10*time.Minute, nil, filepath.Join(dir, "h.bin"), args...)
+		found := false
+		for _, l := range strings.Split(h.Stdout, "\n") {
+			var m map[string]interface{}
+			if json.Unmarshal([]byte(l), &m) == nil && m["k"] == "viol" && str(m, "key") == key {
+				found = true
+				fmt.Printf("REPRODUCED property=%s key=%s\n  %s on %s: %s inputs %v\n", prop, key, str(m, "clause"), str(m, "type"), str(m, "detail"), m["inputs"])
+			}
+		}
+		cleanup()
+		if found {
+			os.Exit(1)
+		}
+		fmt.Println("NOT REPRODUCED (the recorded violation does not occur on the current tree)")
+		os.Exit(0)
+	}
+	f, ok := checks[prop]
+	if !ok {
+		fatalInfra("replay: unknown property %q", prop)
+	}
+	replayKey = key
+	f("quick")
 }
 
 var _ = strings.Contains
